@@ -244,6 +244,15 @@ func (x *Exec) execStmt(s ast.Stmt, st *State) []*State {
 		for _, c := range x.hoist(s.X, st) {
 			if c.out == outNormal {
 				x.eval(s.X, c)
+				if why, ok := c.names["$pendingPanic"]; ok {
+					delete(c.names, "$pendingPanic")
+					if c.out == outNormal {
+						p := c.clone()
+						p.out = outPanic
+						p.note = fmt.Sprint(why) + " panics"
+						out = append(out, p)
+					}
+				}
 			}
 			out = append(out, c)
 		}
